@@ -258,3 +258,30 @@ func deepApp(t *tape.Tape) *app.App {
 	a.Index()
 	return a
 }
+
+// twoRolesApp: one symbol that is a paginated sink in one node and an ordinary sized value in a
+// sibling node (selectors: 1 -> the sink node, 2 -> the value node, 0 -> back).
+func twoRolesApp(t *tape.Tape) *app.App {
+	t.Begin("tworoles")
+	defer t.End()
+	a := &app.App{Root: "root", Labels: map[string]map[string]string{}}
+	rows := []int{t.Range(1, 6), t.Range(1, 6), t.Range(1, 6)}
+	if t.Chance(1, 2) {
+		rows = append(rows, t.Range(1, 12), t.Range(1, 12))
+	}
+	a.Ext = append(a.Ext, &app.ExtSym{Name: "sx", Size: 0, Script: []app.ExtBehav{{Sink: true, Rows: rows}}})
+	a.Nodes = append(a.Nodes, &app.Node{Name: "root", Kind: app.KMenu, Tpl: map[string]string{"": "@root|pick$"}, Code: []app.Inst{
+		{Op: app.MOUT, A: "la", B: "1"}, {Op: app.MOUT, A: "lb", B: "2"}, {Op: app.HALT},
+		{Op: app.INCMP, A: "na", B: "1"}, {Op: app.INCMP, A: "nb", B: "2"}}})
+	sink := []app.Inst{{Op: app.LOAD, A: "sx", N: 0}, {Op: app.MAP, A: "sx"}, {Op: app.MOUT, A: "lc", B: "0"}, {Op: app.MNEXT, A: "ld", B: "11"}, {Op: app.MPREV, A: "le", B: "22"},
+		{Op: app.HALT}, {Op: app.INCMP, A: "_", B: "0"}, {Op: app.INCMP, A: ">", B: "11"}, {Op: app.INCMP, A: "<", B: "22"}}
+	if t.Chance(1, 2) {
+		sink[1] = app.Inst{Op: app.RELOAD, A: "sx"}
+	}
+	a.Nodes = append(a.Nodes, &app.Node{Name: "na", Kind: app.KMenu, Tpl: map[string]string{"": "@na| S<<{{.sx}}>>$"}, Code: sink})
+	a.Nodes = append(a.Nodes, &app.Node{Name: "nb", Kind: app.KMenu, Tpl: map[string]string{"": "@nb| sx=[{{.sx}}]$"}, Code: []app.Inst{
+		{Op: app.LOAD, A: "sx", N: 400}, {Op: app.MAP, A: "sx"}, {Op: app.MOUT, A: "lc", B: "0"}, {Op: app.HALT}, {Op: app.INCMP, A: "_", B: "0"}}})
+	a.Nodes = append(a.Nodes, &app.Node{Name: "_catch", Kind: app.KCatch, Tpl: map[string]string{"": "@_catch|oops$"}, Code: []app.Inst{{Op: app.HALT}, {Op: app.MOVE, A: "_"}}})
+	a.Index()
+	return a
+}
